@@ -41,6 +41,8 @@ def run(ctx):
             i = ctx.rng.randrange(len(ks) - 1)
             ks[i + 1] = ks[i]                 # a segment of constant conductivity
         tmin = 10 ** ctx.rng.uniform(-3, 3)
+        if ctx.rng.random() < 0.3:
+            tmin = ctx.rng.randint(1, 50)      # as typed in a parameter file: `minimum_transmissivity_m2_d: 7`
         T = tm.SplineTransmissivity(list(zs), list(ks), tmin)
         lo, hi = zs[0], zs[-1]
         levels = sorted({lo - 100.0, lo - 1e-9, lo, hi} | set(zs) | {ctx.rng.uniform(lo, hi) for _ in range(8)}
@@ -59,7 +61,7 @@ def run(ctx):
                 "name": "c15Holds", "result": False, "witness": {"exception": err}}})
             continue
         m = [h2f(v) for v in ctx.driver.call("tspline.f", {
-            "knots": [[f2h(z), f2h(k)] for z, k in zip(zs, ks)], "tmin": f2h(tmin), "zs": [f2h(z) for z in levels]})]
+            "knots": [[f2h(z), f2h(k)] for z, k in zip(zs, ks)], "tmin": f2h(float(tmin)), "zs": [f2h(z) for z in levels]})]
         wit = None
         for z, s, a, mv in zip(levels, scal, arr, m):
             ctx.case(("c15", tuple(zs), tuple(ks), z), z > lo)
